@@ -89,7 +89,8 @@ S_Dispatch == LET r == Rec[l - 1] IN
               /\ l > 1 /\ r.ev = "request"
               /\ Dispatch(IF r.cls \in QueryLike THEN Get(r, "qa", 0) ELSE 0,
                           IF r.cls \in QueryLike THEN Get(r, "qb", 0) ELSE 0,
-                          IF r.cls \in {"query", "goto"} THEN Get(r, "qok", TRUE) ELSE TRUE)
+                          IF r.cls \in {"query", "goto", "step"} THEN Get(r, "qok", TRUE)
+                          ELSE IF r.cls = "continue" THEN Get(r, "qlast", TRUE) ELSE TRUE)
 Silent == /\ l <= N
           /\ \/ \E p \in Procs : S_TakeSeq(p) \/ S_Acquire(p)
              \/ \E f \in Fwd : S_FwdLine(f)
